@@ -43,7 +43,7 @@ RESULTS = {"none": None, "0": 0, "5": 5, "127": 127, "128": 128, "-1": -1, "str"
 
 def execute(case):
     import anyio
-    from asphalt.core import CLIApplicationComponent, Component, add_teardown_callback, run_application, start_service_task
+    from asphalt.core import CLIApplicationComponent, Component, add_resource, add_teardown_callback, run_application, start_service_task
 
     prog = case["prog"]
     end = prog["end"]
@@ -63,10 +63,17 @@ def execute(case):
                 late = [1, "late"]
                 add_teardown_callback(lambda: log(ev="td", id=late))
                 log(ev="reg", id=late, late=True)
-        add_teardown_callback(callback)
+        if which == "start" and (c + case.get("seed", 0)) % 2:
+            # registered as the teardown callback of a resource published under two types (still one registration)
+            marker = type(f"Res{c}", (), {})
+            add_resource(marker(), f"res{c}", [marker, object], teardown_callback=callback)
+        else:
+            add_teardown_callback(callback)
         log(ev="reg", id=ident, late=False)
 
     def fails(c, ph):
+        if end["kind"] == "fail2":
+            return ph == "starting" and c in (2, 3)           # two siblings fail in start() at the same moment
         return end["kind"] == "fail" and end["c"] == c and end["phase"] == ph
 
     def stalls(c):
@@ -81,6 +88,10 @@ def execute(case):
             await anyio.sleep(end["at"] / 2)
             raise CrashBoom("service task")
         else:
+            # every program of the family is over long before this (virtual) moment: an application that is still running is stuck
+            await anyio.sleep(60)
+            log(ev="stuck")
+            signal.raise_signal(signal.SIGTERM)
             await anyio.sleep(10 ** 6)
 
     def make_child(c):
@@ -200,7 +211,7 @@ def run(tier: str, seed: int) -> core.Report:
         if not v["ok"]:
             c = by[t["id"]]
             rep.violations.append(core.Violation(PROP, v["why"], f"C15:{v['why']}:{c['prog']['end']['kind']}", {"case": c}, {"events": t["events"], "step": v["step"]}))
-    need = {"return-result", "exit-result", "raise-runraises", "exit-fail", "exit-timeout", "exit-signal", "return-signal", "raise-crash", "any", "callback-registered-during-teardown-ran"}
+    need = {"return-result", "exit-result", "raise-runraises", "exit-fail", "exit-fail2", "exit-timeout", "exit-signal", "return-signal", "raise-crash", "any", "callback-registered-during-teardown-ran"}
     if not need <= set(hits) and not rep.violations:
         raise core.MachineryError(f"vacuous: monitor clauses never exercised: {sorted(need - set(hits))}")
     rep.distinct_nontrivial = len({json.dumps(t["prog"], sort_keys=True) for t in traces if sum(1 for e in t["events"] if e["ev"] == "reg") >= 2})
